@@ -88,12 +88,14 @@ def handleTree (j : Json) : R Json := do
       ("closed", Json.bool (isClosed || !recursive))]
   else if call == "parent" then
     let m := (parent cfg ps t0 me).2.2
-    let sp := if recycled || !listed then nspJ
+    let sp := if Spec.isRoot t0 pid then jObj (("kind", "ok") :: jParent none)
+      else if recycled || !listed then nspJ
       else jObj (("kind", "ok") :: jParent (Spec.parentOf t0 pid me.ctime))
     return jObj [("model", jOut jParent m), ("spec", sp), ("running", jrun), ("flags", flags), ("closed", Json.bool true)]
   else if call == "parents" then
     let m := (parents cfg ps t0 me).2
-    let sp := if recycled || !listed then nspJ
+    let sp := if Spec.isRoot t0 pid then jObj (("kind", "ok") :: jChain [])
+      else if recycled || !listed then nspJ
       else jObj (("kind", "ok") :: jChain (Spec.chainList t0 (t0.length + 1) [pid] pid me.ctime))
     return jObj [("model", jOut jChain m), ("spec", sp), ("running", jrun), ("flags", flags), ("closed", Json.bool true)]
   else .error s!"unknown call {call}"
